@@ -410,6 +410,8 @@ func (s *Store[H]) setTail(ctx context.Context, write datastore.Write, to uint64
 			return fmt.Errorf("writing headKey in batch: %w", err)
 		}
 		s.contiguousHead.Store(&newTail)
+		// publish the height of the moved head: advanceHead only does so if it moves it further up
+		s.heightSub.SetHeight(newTail.Height())
 		s.advanceHead(ctx)
 	}
 	return nil
